@@ -74,6 +74,29 @@ def runs : List Int → List (Int × Int)
       | [] => [(a, a + 1)]
       | (_, e) :: rest => (a, e) :: rest
 
+/-- negative entries of an integer index list count from the end (`np.where(keep < 0, keep + n, keep)`) -/
+def normNeg (n : Nat) (l : List Int) : List Int := l.map fun v => if v < 0 then v + n else v
+
+/-- the two read strategies for a (normalised, in-bounds) non-empty integer index list -/
+def axisSelectArr (n : Nat) (l : List Int) : Except Err Sel :=
+  if ¬ strictInc l then .error .type else
+  let segs := runs l
+  if 5 * l.length > n ∧ segs.length > 1 then
+    -- span-and-postselect strategy
+    let first := (segs.head?.map (·.1)).getD 0
+    let lastEnd := (segs.getLast?.map (·.2)).getD 0
+    let chunk := readSlice n first lastEnd 1
+    let post := l.map (· - l.headD 0)
+    match post.mapM (fun p => do let k ← normInt chunk.length p; getNat chunk k) with
+    | .error e => .error e
+    | .ok vs => .ok (.many (vs.map Int.toNat))
+  else
+    -- one slice per contiguous segment
+    let pieces := segs.map (fun (a, b) => (readSlice n a b 1, (b - a).toNat))
+    if pieces.all (fun (rd, sz) => rd.length = sz) then
+      .ok (.many ((pieces.flatMap (·.1)).map Int.toNat))
+    else .error .value
+
 /-- One axis of `LazyIndexer.__getitem__` after lookup mapping: returns the resolved
     selection of source positions, or the error raised. -/
 def axisSelect (n : Nat) : Mapped → Except Err Sel
@@ -89,24 +112,11 @@ def axisSelect (n : Nat) : Mapped → Except Err Sel
     if m.length = n then .ok (.many (nonzero m))
     else .error .other            -- wrong-length mask: outside the grammar
   | .arr [] => .ok (.many [])
-  | .arr l =>
-    if ¬ strictInc l then .error .type else
-    let segs := runs l
-    if 5 * l.length > n ∧ segs.length > 1 then
-      -- span-and-postselect strategy
-      let first := (segs.head?.map (·.1)).getD 0
-      let lastEnd := (segs.getLast?.map (·.2)).getD 0
-      let chunk := readSlice n first lastEnd 1
-      let post := l.map (· - l.headD 0)
-      match post.mapM (fun p => do let k ← normInt chunk.length p; getNat chunk k) with
-      | .error e => .error e
-      | .ok vs => .ok (.many (vs.map Int.toNat))
-    else
-      -- one slice per contiguous segment
-      let pieces := segs.map (fun (a, b) => (readSlice n a b 1, (b - a).toNat))
-      if pieces.all (fun (rd, sz) => rd.length = sz) then
-        .ok (.many ((pieces.flatMap (·.1)).map Int.toNat))
-      else .error .value
+  | .arr (a :: t) =>
+    -- negative entries count from the end; entries that are still out of bounds are refused (IndexError);
+    -- only then is the order of the entries checked (TypeError)
+    let l := normNeg n (a :: t)
+    if l.any (fun v => decide (v < 0 ∨ v ≥ (n : Int))) then .error .index else axisSelectArr n l
 
 def getitem1 (n : Nat) (k1 k2 : Ix) : Except Err Sel := do
   let lk ← mkLookup n k1
